@@ -234,7 +234,7 @@ theorem Inv.sendRawString (h : Inv jid U NR p c) (it : Item)
   · exact h
 
 /-- user data through the gated entry points -/
-theorem Inv.pushUser (h : Inv jid U NR p c) (it : Item) (hu : U it)
+theorem Inv.pushUser (h : Inv jid U NR p c) (it : Item) (hu : UOk U it)
     (hg : isConnectedFor c .user = true) : Inv jid U NR p (pushRaw c it .user) := by
   unfold Conn.isConnectedFor at hg
   simp only [ne_eq, not_true_eq_false, decide_false, Bool.false_or, Bool.and_eq_true,
@@ -263,7 +263,7 @@ theorem Inv.sendRawUser (h : Inv jid U NR p c) (it : Item) (hu : U it) (hnr : ¬
       · exact e
       · cases e
     rw [this]
-    exact ⟨fun _ => ⟨hu, fun n => absurd n hnr⟩, fun e => absurd rfl e⟩
+    exact ⟨fun _ => ⟨Or.inl hu, fun n => absurd n hnr⟩, fun e => absurd rfl e⟩
   · exact h
 
 /-! ### changing the fields `InvH` / `InvG` / `InvE` depend on -/
@@ -486,11 +486,11 @@ theorem Inv.nil_nt (h : Inv jid U NR p c) (hnil : PendNil p.x c) :
     obtain ⟨_, k', h2, h3, h4⟩ := h.h.t1 k a b (of_decide_eq_false hy)
     exact absurd (hnil k' h2 ⟨_, h3, by simp⟩) h4
 
-theorem Inv.negotiationSuccess (h : Inv jid U NR p c) (hnil : PendNil p.x c)
+theorem Inv.negNotify (h : Inv jid U NR p c) (hnil : PendNil p.x c)
     (hc : c.state = .connected) (hn : c.g.notifiedConnect = false) (hneg : NegOk c.g)
     (hrp : p.rpb = false) (hpb : p.pb ≠ .fresh) :
-    Inv jid U NR { p with w := false } (negotiationSuccess c) := by
-  unfold Conn.negotiationSuccess Conn.notify; dsimp only
+    Inv jid U NR { p with w := false } (Conn.notify { c with negotiated := true } .connect) := by
+  unfold Conn.notify; dsimp only
   refine ⟨h.cfg, ?_, h.e.push_conn _ rfl hn (fun _ => hneg), ?_, ?_, h.f.congr rfl rfl id id, h.ts⟩
   · exact { h.q with q_n := fun _ _ _ _ _ _ => rfl }
   · exact { h.gg with nc := fun a => absurd hc a, cg := fun a => (by rw [hc] at a; cases a),
@@ -499,6 +499,22 @@ theorem Inv.negotiationSuccess (h : Inv jid U NR p c) (hnil : PendNil p.x c)
     intro hf; rcases hf with hf | hf
     · rw [h.rp_false hrp] at hf; cases hf
     · rw [h.f.ps] at hf; exact absurd hf hpb
+
+/-- `_stream_negotiation_success`: CONNECT is delivered; the application's connection handler may
+    send a stanza at once -/
+theorem Inv.negotiationSuccess (h : Inv jid U NR p c) (hnil : PendNil p.x c)
+    (hc : c.state = .connected) (hn : c.g.notifiedConnect = false) (hneg : NegOk c.g)
+    (hrp : p.rpb = false) (hpb : p.pb ≠ .fresh) :
+    Inv jid U NR { p with w := false } (Conn.negotiationSuccess c) := by
+  have h1 := h.negNotify hnil hc hn hneg hrp hpb
+  unfold Conn.negotiationSuccess; dsimp only
+  split
+  · unfold Conn.sendStanza
+    have hg : isConnectedFor (Conn.notify { c with negotiated := true } .connect) .user = true := by
+      unfold Conn.isConnectedFor Conn.notify; simp [hc]
+    rw [if_pos hg]
+    exact h1.pushUser _ (Or.inr ⟨_, _, rfl⟩) hg
+  · exact h1
 
 theorem Inv.connOpenStream (h : Inv jid U NR p c) : Inv jid U NR p (connOpenStream c) := by
   unfold Conn.connOpenStream
